@@ -515,13 +515,35 @@ def _mut_skip_first(fn):
 
 
 # ------------------------------------------------------------------------------------------------ reopen (decode loop of __init__)
+def _decode_offset_var(mod):
+    """the local that walks over the records in the reload loop of FileJournal.__init__: the left operand of the loop test (whatever it is called)"""
+    fn, ci = mod.find('FileJournal.__init__')
+    ws = [n for n in fn.body if isinstance(n, ast.While)]
+    if len(ws) == 1 and isinstance(ws[0].test, ast.Compare) and isinstance(ws[0].test.left, ast.Name):
+        return ws[0].test.left.id
+    return 'currentOffset'
+
+
+def _decode_region_start(fn):
+    """index of the first statement of the run of local assignments in front of the reload loop (the loop's own set-up)"""
+    ws = [i for i, n in enumerate(fn.body) if isinstance(n, ast.While)]
+    if len(ws) != 1:
+        return None
+    i = ws[0]
+    while i > 0 and isinstance(fn.body[i - 1], ast.Assign) and all(isinstance(t, ast.Name) for t in fn.body[i - 1].targets):
+        i -= 1
+    return i if i < ws[0] else None
+
+
 def _decode_loop_spec(ctx, fjref, v, img, st):
+    offvar = _decode_offset_var(source.load(JMOD))
+
     def construct(I, fr, it):
         k = to_z3(it['k'])
         c = ctx.cell(fjref)
         jl = c.fields[FJ('journal')]
         ctx.setcell(jl, SList(k, v.entry, 3))
-        fr.locals['currentOffset'] = v.off(k)
+        fr.locals[offvar] = v.off(k)
 
     def inv(I, fr, it):
         return [('k-in-range', to_z3(it['k']) <= to_z3(v.n))]
@@ -531,7 +553,7 @@ def _decode_loop_spec(ctx, fjref, v, img, st):
         c = ctx.cell(fjref)
         sl = ctx.cell(c.fields[FJ('journal')])
         vk = View(k, v.cmd, v.idx, v.term, v.off)
-        out = [('offset-is-start-of-record-k', Eq(fr.locals['currentOffset'], v.off(k)))]
+        out = [('offset-is-start-of-record-k', Eq(fr.locals[offvar], v.off(k)))]
         out += [(nm.split('.', 1)[-1] if False else nm, f) for nm, f in list_equals_view(ctx, as_slist(sl), vk, 'decoded-prefix-equals-view')]
         return out
     return LoopSpec('C08+C06:O8.2.decode-loop', inv, construct=construct, check=check, keep=('self',))
@@ -548,14 +570,15 @@ def fj_reopen(ctx):
     mod = source.load(JMOD)
     fn, ci = mod.find('FileJournal.__init__')
     # region: from `currentOffset = FIRST_RECORD_OFFSET` to the end
-    start = [i for i, s in enumerate(fn.body) if isinstance(s, ast.Assign) and isinstance(s.targets[0], ast.Name) and s.targets[0].id == 'currentOffset']
-    if not start:
+    s0 = _decode_region_start(fn)
+    if s0 is None:
         raise Undecided('decode region of FileJournal.__init__ not located')
+    start = [s0]
     stmts = fn.body[start[0]:]
     c = ctx.cell(fj)
     ctx.setcell(fj, c.with_field(FJ('journal'), ctx.alloc(PList([]))).with_field(FJ('currentOffset'), None))
     st = {}
-    loops = {'FileJournal.__init__': loop_table(mod, 'FileJournal.__init__', {Sel('while', header=('currentOffset',)): _decode_loop_spec(ctx, fj, v, img0, st)})}
+    loops = {'FileJournal.__init__': loop_table(mod, 'FileJournal.__init__', {Sel('while'): _decode_loop_spec(ctx, fj, v, img0, st)})}
     I = Interp(ctx, registry=JREG, externals=JEXT, inline={'FileJournal.__getLastRecordOffset'}, loop_invariants=loops)
     fr = Frame(mod, 'FileJournal', 'FileJournal.__init__')
     fr.locals['self'] = fj
@@ -938,7 +961,8 @@ def rfile_open(ctx, phase):
     # ... and the real decode region of FileJournal.__init__ on this mapping yields the empty journal with currentOffset at the first record
     mod = source.load(JMOD)
     fn, ci = mod.find('FileJournal.__init__')
-    start = [i for i, st in enumerate(fn.body) if isinstance(st, ast.Assign) and isinstance(st.targets[0], ast.Name) and st.targets[0].id == 'currentOffset']
+    s0_ = _decode_region_start(fn)
+    start = [s0_] if s0_ is not None else []
     if not start:
         raise Undecided('decode region of FileJournal.__init__ not located')
     fj = ctx.alloc(PObj('FileJournal', {FJ('journalFile'): rf, FJ('journal'): ctx.alloc(PList([])), FJ('currentOffset'): None}))
@@ -1010,7 +1034,7 @@ def fj_reopen_then_empty(ctx, op):
     meta = ctx.alloc(KVDict([(FreshBool('hasCommit'), 'raftCommitIndex', FreshInt('storedCommit'))]))
     ms = ctx.alloc(PObj('MetaStorer', {'_MetaStorer__path': 'journal.bin.meta'}))
     st = {}
-    loops = {'FileJournal.__init__': loop_table(mod, 'FileJournal.__init__', {Sel('while', header=('currentOffset',)): _decode_loop_spec(ctx, fj, v, img0, st)})}
+    loops = {'FileJournal.__init__': loop_table(mod, 'FileJournal.__init__', {Sel('while'): _decode_loop_spec(ctx, fj, v, img0, st)})}
     reg = dict(JREG)
     reg['MetaStorer.getMeta'] = lambda I_, s, a, k: meta
     ext = dict(JEXT)
